@@ -99,7 +99,7 @@ class C13(BaseCheck):
   REQUIRED_CLASSES = ('headers', 'ctx:ascii', 'ctx:utf8', 'ctx:empty', 'ctx:long', 'ctx:none',
                       'deadline', 'client-id', 'reply:OK', 'reply:ERROR', 'reply:NACK', 'reply:Rerr',
                       'reply:BAD_Rerr', 'tdiscarded', 'wire', 'wire:requests-while-opening', 'wire:simultaneous-discards', 'wire:stalled-across-ping',
-                      'wire:short-sends', 'wire:after-unserialisable-call', 'deadline:already-past', 'sibling-service-marshalled-first')
+                      'wire:short-sends', 'wire:after-unserialisable-call', 'deadline:already-past', 'sibling-service-marshalled-first', 'wire:every-write-stalls')
   ASSUMPTIONS = ('context keys/values are text; encoded length of each <= 32767 bytes (int16 length field)',
                  'deadline context = (whole-second wall-clock timestamp in ns, absolute deadline in ns), '
                  'deadline compared with 1us tolerance for the float->ns conversion')
@@ -518,12 +518,33 @@ class C13(BaseCheck):
       if alive and sorted(got_big) != sorted(r['args'][0] for r in big):
         out.violate('wire:call', 'with writes stalled across the ping period the peer decoded %d of 3 large requests '
                     'intact on a connection that is still up' % len(set(got_big) & set(r['args'][0] for r in big)), {'stalled': True})
+    every_write_stalls = False
+    if opened and not stalled and not srv.bad_frames:
+      # every write blocks for a while behind a prefix (also the few bytes of a frame header) and the
+      # deadlines of the requests being written pass inside those writes; afterwards the peer is
+      # healthy again: the byte stream must still be a sequence of whole frames
+      every_write_stalls = True
+      srv.sim.send_delay = lambda conn: 0.3
+      for k in range(3):
+        w.call('echo', ('s%d-%d' % (len(w.calls), rng.getrandbits(16)),), timeout=0.1)
+        env.advance(rng.choice([0.0, 0.05]))
+      env.advance(2.0)
+      srv.sim.send_delay = None
+      n_req1 = len(srv.requests)
+      hv = w.call('echo', ('h%d-%d' % (len(w.calls), rng.getrandbits(16)),), timeout=2.0)
+      env.advance(1.0)
+      out.obligations += 1
+      alive = any(not c.client_closed and not c.server_closed for c in srv.sim.conns)
+      if alive and not srv.bad_frames and hv['args'][0] not in [q['call'][1][0] for q in srv.requests[n_req1:] if q.get('call') and q['call'][1]]:
+        out.violate('wire:call', 'after writes that stalled past their requests\' deadlines the peer did not decode the next '
+                    'request on a connection that is still up', {'stalled': 'every-write'})
     for bf in srv.bad_frames:
       out.violate('wire:undecodable', 'the peer\'s independent decoder rejected a frame the client wrote: %r' % (bf,),
-                  {'stalled': stalled})
+                  {'stalled': stalled or every_write_stalls})
     w.close()
     env.advance(0.1)
     out.classes = ['wire', 'wire:discards'] + (['wire:stalled-across-ping'] if stalled else [])
+    out.classes = out.classes + (['wire:every-write-stalls'] if every_write_stalls else [])
     out.classes = out.classes + (['wire:simultaneous-discards'] if len(want) > 1 else [])
     out.classes = out.classes + (['wire:short-sends'] if short else [])
     out.classes = out.classes + (['wire:after-unserialisable-call'] if bad_first else [])
